@@ -963,6 +963,17 @@ func playHistory(t *testing.T, r *rep.Reporter, c *rep.Case, idx int, p *prng.R,
 					if x.f[0] == 0 {
 						tbl = "credentials-table"
 					}
+					if x.o.OK && expect {
+						// The statement allows a success with the current password of the account the
+						// documented mapping yields; an implementation that retries a failed lookup or asks
+						// a second provider may get there although one lookup failed. The reference decides
+						// (identity included); only successes the healthy tables would refuse are judged below.
+						if x.mech != "direct-AuthPlain" {
+							judgeAuth(c, e, x.mech, x.o, expect, canonLogin, canonAcct, mapped, vk, pw, nil, nil, wit)
+						}
+						k.xc("fault_success_with_current_password_of_mapped_account_not_judged_as_outage_bypass", 1)
+						continue
+					}
 					if x.o.OK {
 						c.Violation(fmt.Sprintf("auth/accepted-although-%s-lookup-failed/mech=%s/%s/%s", tbl, x.mech, hc, rel),
 							fmt.Sprintf("%s accepted user %q password %q (identity %q) although a lookup of the %s returned an error during the exchange (fault %+v); with healthy tables: %s, reference success=%v",
